@@ -57,10 +57,29 @@ let parse_items (s : string) : bool * item list =
 let parse_keys (s : string) : (nat * n list option) list =
   if s = "none" then []
   else List.map (fun t ->
-      let i = String.index t ':' in
-      (nat_of_int (int_of_string ("0x" ^ String.sub t 0 i)),
-       parse_state (String.sub t (i + 1) (String.length t - i - 1))))
+      match split_on ':' t with
+      | pg :: st :: _ -> (nat_of_int (int_of_string ("0x" ^ pg)), parse_state st)
+      | _ -> failwith ("bad key " ^ t))
       (split_on ',' s)
+
+(* the mock node that received each request, grouped by page (third field of a key) *)
+let parse_nodes (s : string) : (int * n) list option =
+  if s = "none" then Some []
+  else
+    let l = List.map (fun t ->
+        match split_on ':' t with
+        | [pg; _; nd] -> Some (int_of_string ("0x" ^ pg), n_of_hex nd)
+        | _ -> None) (split_on ',' s) in
+    if List.mem None l then None else Some (List.filter_map (fun x -> x) l)
+let group_nodes (l : (int * n) list) : n list list =
+  let rec go cur acc = function
+    | [] -> List.rev (match cur with None -> acc | Some (_, g) -> List.rev g :: acc)
+    | (pg, nd) :: r ->
+      (match cur with
+       | Some (p, g) when p = pg -> go (Some (p, nd :: g)) acc r
+       | Some (_, g) -> go (Some (pg, [nd])) (List.rev g :: acc) r
+       | None -> go (Some (pg, [nd])) acc r) in
+  go None [] l
 
 let show_item = function
   | IRow v -> "r" ^ hex_of_n v | IErr v -> "e" ^ hex_of_n v | IEnd -> "$"
@@ -96,6 +115,28 @@ let verdict case impl =
     if not (plans_ok (List.init nn n_of_int) script) then "error bad-plans" else
     let exp_strict = expected true m n true script in
     let known = known_ignored m n script in
+    let is_single = String.length cons >= 2 && String.sub cons 0 2 = "st" in
+    if is_single then begin
+      (* one page resumed with the caller's paging state (C07_single_page_state).  The property
+         sentence here: every request carries exactly that state -> `viol`; any other difference
+         from the model (result, number of attempts) -> `diff` *)
+      match obs, script with
+      | "error" :: why, _ -> "ok not-run " ^ String.concat " " why
+      | [res; keys], [ps] ->
+        let st = parse_state (String.sub cons 2 (String.length cons - 2)) in
+        let ok = parse_keys keys in
+        let (mkeys, mr) = single_run st ps in
+        let mres = match mr with
+          | FCompleted (_, RRows (rows, next)) ->
+            "p" ^ (if rows = [] then "-" else String.concat "." (List.map hex_of_n rows)) ^ ":" ^ show_state next
+          | FCompleted (_, _) -> "pv"
+          | FIgnored _ -> "p-:N"
+          | FFailed e -> "e" ^ hex_of_n e in
+        if List.exists (fun (_, s) -> s <> st) ok then "viol single-page request without the caller's state spec=" ^ show_state st
+        else if res = mres && List.length ok = List.length mkeys then "ok"
+        else "diff model=" ^ mres ^ " " ^ show_keys mkeys
+      | _ -> "error bad-single-case"
+    end else
     (match obs with
      | "error" :: why ->
        (* the case did not run (environment: group failed, statement could not be prepared, ...):
@@ -108,32 +149,32 @@ let verdict case impl =
      | [items; keys] ->
        let (ctor_failed, oi) = parse_items items in
        let ok = parse_keys keys in
-       let ctor_fails sc = match snd (seq_run m sc) with OFail _ -> true | _ -> false in
        let is_drop = String.length cons >= 4 && String.sub cons 0 4 = "drop" in
        (* a constructor error leaves nothing to drop: such observations are full reads *)
-       let as_drop = is_drop && not ctor_failed && not (ctor_fails script) in
+       let as_drop = is_drop && not ctor_failed && not (ctor_fails m script) in
        let cnt = if is_drop then nat_of_int (int_of_string ("0x" ^ String.sub cons 4 (String.length cons - 4))) else O in
        let prop = if as_drop then prop_drop_ok m n script cnt oi ok else prop_full_ok m n script oi ok in
        let accepts sc =
          if as_drop then accept_drop m sc cnt oi ok
-         else accept_full m sc oi ok && ctor_failed = ctor_fails sc in
-       (* Cases with a scripted client-side timeout (T) run under a wall-clock bound.  When the
-          machine stalls, the timeout may strike an EARLIER attempt than the scripted one.  That is
-          the same model run on the script with the T moved forward; try those scripts too (only
-          for full reads whose observation contains the timeout error). *)
-       let ends_in_timeout = List.exists (fun i -> i = IErr e_timeout) oi in
+         else accept_full m sc oi ok && ctor_failed = ctor_fails m sc in
+       (* Cases with a scripted client-side timeout (T) run under a wall-clock bound: when the
+          machine stalls, the timeout may strike an earlier attempt.  accept_full_timeout (Coq,
+          C07_early_timeout_sound) accepts exactly the observations explained by the script with
+          the timeout moved to an earlier attempt; full reads only. *)
        let has_t = List.exists (fun ps -> List.mem FTimeout ps.ps_faults) script in
-       let rec take k l = if k = 0 then [] else match l with [] -> [] | x :: r -> x :: take (k - 1) r in
-       let earlier_timeouts () =
-         let rec go pre = function
-           | [] -> false
-           | ps :: rest ->
-             let nf = List.length ps.ps_faults in
-             let here = List.exists (fun i ->
-                 accepts (List.rev_append pre ({ ps with ps_faults = take i ps.ps_faults @ [FTimeout] } :: rest)))
-                 (List.init (nf + 1) (fun i -> i)) in
-             here || (if List.mem FTimeout ps.ps_faults then false else go (ps :: pre) rest) in
-         go [] script in
+       let earlier_timeouts () = accept_full_timeout m script ctor_failed oi ok in
+       (* target identities (Session pagers): the node of every request must follow coordinator
+          stability (C07_coordinator_stability: every model run satisfies coord_ok).  Not part of
+          the property statement: a mismatch is `diff`.  After an early drop the last page's
+          requests may be cut short by the snapshot: that group is not judged. *)
+       let coord_fine =
+         if m = MConn then true else
+           match parse_nodes keys with
+           | None -> true
+           | Some l ->
+             let g = group_nodes l in
+             let g = if as_drop then (match List.rev g with [] -> [] | _ :: r -> List.rev r) else g in
+             coord_ok None script g in
        let acc = accepts script in
        if known then begin
          (* inside class O1 the acceptor has no soundness theorem: the property predicate itself
@@ -143,8 +184,9 @@ let verdict case impl =
          else if acc then "viol class=ignore-write-error-silent-end spec=" ^ show_expected exp_strict
          else "viol spec=" ^ show_expected exp_strict
        end
+       else if acc && not coord_fine then "diff coordinator-stability model=" ^ model_string m script
        else if acc then "ok"
-       else if (not as_drop) && has_t && ends_in_timeout && earlier_timeouts () then "ok early-timeout"
+       else if (not as_drop) && has_t && earlier_timeouts () then "ok early-timeout"
        else if not prop then "viol spec=" ^ show_expected exp_strict
        else "diff model=" ^ model_string m script
      | _ -> "error bad-observation")
